@@ -80,8 +80,8 @@ def run_mem(case):
                     if not retried:
                         retried.append((m.id, a))
                         late_ = bool(env.world.fault_fired) or cf.link is None
-                        cf.mem.write(m, a, b'\x07\x08')
-                        issued.append({'op': 'write', 'mem': m.id, 'addr': a, 'len': 2, 'data': b'\x07\x08', 'accepted': True, 'unordered': True,
+                        acc_ = cf.mem.write(m, a, b'\x07\x08')
+                        issued.append({'op': 'write', 'mem': m.id, 'addr': a, 'len': 2, 'data': b'\x07\x08', 'accepted': acc_ is not False, 'unordered': True,
                                        'maybe_superseded': late_ or any(o_.get('flush') for o_ in case['ops'])})
                 cf.mem.mem_write_failed_cb.add_callback(retry)
 
@@ -105,9 +105,9 @@ def run_mem(case):
                         ln_ = case['chain_on_ok']
                         a2 = (a + 61) % (min(sizes[m.id], 4096) - ln_)
                         data = _data(ln_, 9)
-                        cf.mem.write(m, a2, data)
+                        acc_ = cf.mem.write(m, a2, data)
                         out.feat('write-from-completion-notification')
-                        issued.append({'op': 'write', 'mem': m.id, 'addr': a2, 'len': ln_, 'data': data, 'accepted': True, 'unordered': True,
+                        issued.append({'op': 'write', 'mem': m.id, 'addr': a2, 'len': ln_, 'data': data, 'accepted': acc_ is not False, 'unordered': True,
                                        'maybe_superseded': any(o_.get('flush') for o_ in case['ops'])})
                 cf.mem.mem_write_cb.add_callback(chain)
         chained = []
@@ -235,9 +235,11 @@ def run_mem(case):
                     if op.get('progress'):
                         prog = []
                         progress_logs.append((mid, addr, ln, prog))
-                        cf.mem.write(m, addr, data, flush_queue=op['flush'], progress_cb=lambda msg, pct, prog=prog: prog.append(pct))
+                        acc_w = cf.mem.write(m, addr, data, flush_queue=op['flush'], progress_cb=lambda msg, pct, prog=prog: prog.append(pct))
                     else:
-                        cf.mem.write(m, addr, data, flush_queue=op['flush'])
+                        acc_w = cf.mem.write(m, addr, data, flush_queue=op['flush'])
+                    if acc_w is False:
+                        rec_['accepted'] = False      # refused (no link any more): nothing is sent, nothing is notified
                     # a call that was still in progress when the link error was raised is like one made after it: the library
                     # had not registered the request when it failed everything that was pending
                     rec_['maybe_superseded'] = late or bool(env.world.fault_fired)
